@@ -17,6 +17,7 @@ struct rtr_bgpsec *rtr_bgpsec_new(uint8_t alg, uint8_t safi, uint16_t afi, uint3
 struct rtr_bgpsec_nlri *rtr_bgpsec_nlri_new(int nlri_len);
 void rtr_bgpsec_free(struct rtr_bgpsec *bgpsec);
 void rtr_bgpsec_free_signatures(struct rtr_signature_seg *seg);
+#include "rtrlib/rtr_mgr.h"
 }
 using namespace b8205;
 
@@ -98,7 +99,7 @@ static rc::Gen<Case> genCase(int mode, int max_hops)
 		gen::resize(max_hops - 1, gen::container<std::vector<HopSpec>>(hop)), hop, rng<int>(0, 6), gen::weightedElement<int>({{10, 1}, {10, 2}, {1, 0}, {1, 3}, {1, 25}}),
 		gen::weightedElement<int>({{8, 1}, {1, 2}, {1, 128}}), rng<int>(0, 32), rng<int>(0, 128), gen::weightedElement<int>({{20, 1}, {1, 0}, {1, 2}}),
 		gen::container<std::vector<uint8_t>>(32, gen::arbitrary<uint8_t>()),
-		mode == 0 ? gen::weightedElement<int>({{5, 0}, {6, 1}, {1, 2}}) : gen::weightedElement<int>({{8, 0}, {1, 2}, {2, 3}}), rng<int>(0, 9), rng<int>(0, 1023), rng<int>(0, 63));
+		mode == 0 ? gen::weightedElement<int>({{5, 0}, {6, 1}, {1, 2}}) : gen::weightedElement<int>({{8, 0}, {1, 2}, {2, 3}}), rng<int>(0, 10), rng<int>(0, 1023), rng<int>(0, 63));
 }
 
 struct KeyEntry { std::array<uint8_t, 20> ski; uint32_t asn; Bytes spki; };
@@ -203,7 +204,7 @@ static vf::Result run_case(const Case &c, Info *info)
 		std::string what_corrupt = "none";
 		if (c.corrupt == 1) {
 			size_t hi = (size_t)c.hop % N;
-			int f = c.field % 10, bit = c.bit;
+			int f = c.field % 11, bit = c.bit;
 			if (info) info->cls.push_back("single-bit-corruption");
 			switch (f) {
 			case 0: u.target_as ^= 1u << (bit % 32); what_corrupt = "target AS"; break;
@@ -215,25 +216,39 @@ static vf::Result run_case(const Case &c, Info *info)
 			case 6: if (!u.nlri.empty()) { u.nlri[(bit / 8) % u.nlri.size()] ^= 1u << (bit % 8); what_corrupt = "NLRI bits"; } else { u.nlri_len ^= 1; u.nlri.resize((u.nlri_len + 7) / 8, 0); what_corrupt = "NLRI length"; } break;
 			case 7: u.hops[hi].ski[(bit / 8) % 20] ^= 1u << (bit % 8); what_corrupt = "SKI of hop " + std::to_string(hi); break;
 			case 8: if (!u.hops[hi].sig.empty()) { u.hops[hi].sig[(bit / 8) % u.hops[hi].sig.size()] ^= 1u << (bit % 8); what_corrupt = "signature of hop " + std::to_string(hi); } break;
+			case 10: u.alg ^= (uint8_t)(1u << (bit % 8)); what_corrupt = "algorithm suite"; break;
 			default: u.nlri_len ^= 1u << (bit % 8); u.nlri.resize((u.nlri_len + 7) / 8, 0); what_corrupt = "NLRI length"; break;
 			}
 		}
-		if (c.corrupt == 2 && N >= 1) { n_sigs = N - 1; if (info) info->cls.push_back("segment-count-mismatch"); }
+		size_t n_path = N;
+		if (c.corrupt == 2 && N >= 1) {
+			// one Signature Segment too few, or one Secure_Path Segment too few
+			if (c.field % 2 == 0 || N == 1) { n_sigs = N - 1; if (info) info->cls.push_back("segment-count-mismatch(fewer-signatures)"); }
+			else { n_path = N - 1; if (info) info->cls.push_back("segment-count-mismatch(fewer-path-segments)"); }
+		}
 		bool strict = true, relaxed = true, all_ski = true;
-		if (n_sigs == N)
+		if (n_sigs == N && n_path == N)
 			for (size_t k = 0; k < N; k++) {
 				if (!model_hop_ok(k, true)) strict = false;
 				if (!model_hop_ok(k, false)) relaxed = false;
 				if (!ski_known(k)) all_ski = false;
 			}
 		bool supported = u.alg == 1 && (u.afi == 1 || u.afi == 2);
-		struct rtr_bgpsec *b = to_lib(u, N, n_sigs);
+		struct rtr_bgpsec *b = to_lib(u, n_path, n_sigs);
 		int got = n_sigs == 0 ? -99 : rtr_bgpsec_validate_as_path(b, tab);
+		if (n_sigs != 0) {
+			// the public entry point of the connection manager must give the same answer
+			struct rtr_mgr_config mcfg;
+			memset(&mcfg, 0, sizeof mcfg);
+			mcfg.spki_table = tab;
+			int got2 = rtr_mgr_bgpsec_validate_as_path(b, &mcfg);
+			if (got2 != got) FAIL("C11:mgr-entry-point-differs", "rtr_mgr_bgpsec_validate_as_path gives " + std::to_string(got2) + ", rtr_bgpsec_validate_as_path gives " + std::to_string(got));
+		}
 		rtr_bgpsec_free(b);
 		std::string ctx = " [hops=" + std::to_string(N) + " afi=" + std::to_string(u.afi) + " nlri_len=" + std::to_string(u.nlri_len) + " corruption=" + what_corrupt + "]";
-		if (info) info->cls.push_back(strict && supported && n_sigs == N ? "expected-valid" : "expected-not-valid");
+		if (info) info->cls.push_back(strict && supported && n_sigs == N && n_path == N ? "expected-valid" : "expected-not-valid");
 		if (n_sigs == 0) { /* a path without signature segments is rejected as invalid arguments before anything else */ }
-		else if (n_sigs != N) { if (got != RTR_BGPSEC_WRONG_SEGMENT_COUNT) FAIL("C11:segment-count-code", "unequal segment counts gave " + std::to_string(got) + ctx); }
+		else if (n_sigs != n_path) { if (got != RTR_BGPSEC_WRONG_SEGMENT_COUNT) FAIL("C11:segment-count-code", "unequal segment counts gave " + std::to_string(got) + ctx); }
 		else if (u.alg != 1 && (u.afi == 1 || u.afi == 2)) { if (got != RTR_BGPSEC_UNSUPPORTED_ALGORITHM_SUITE) FAIL("C11:suite-code", "algorithm suite " + std::to_string(u.alg) + " gave " + std::to_string(got) + ctx); }
 		else if (u.alg == 1 && !(u.afi == 1 || u.afi == 2)) { if (got != RTR_BGPSEC_UNSUPPORTED_AFI) FAIL("C11:afi-code", "AFI " + std::to_string(u.afi) + " gave " + std::to_string(got) + ctx); }
 		else if (!supported) { if (got == RTR_BGPSEC_VALID) FAIL("C11:valid-on-unsupported", "unsupported suite and AFI gave VALID" + ctx); }
@@ -258,15 +273,22 @@ static vf::Result run_case(const Case &c, Info *info)
 				if (info) info->cls.push_back("bad-private-key");
 			}
 			if (last && c.corrupt == 2) {
-				// one Secure_Path segment too many / too few for signing
-				struct rtr_secure_path_seg *extra = rtr_bgpsec_new_secure_path_seg(1, 0, 5);
-				rtr_bgpsec_append_sec_path_seg(b, extra);
+				// one Secure_Path segment too many / too few for signing (signing needs path = signatures + 1)
+				if ((c.bit & 1) && k >= 1) {
+					rtr_bgpsec_free(b);
+					b = to_lib(u, k, k);
+					if (info) info->cls.push_back("segment-count-mismatch(own-segment-missing)");
+				} else {
+					struct rtr_secure_path_seg *extra = rtr_bgpsec_new_secure_path_seg(1, 0, 5);
+					rtr_bgpsec_append_sec_path_seg(b, extra);
+					if (info) info->cls.push_back("segment-count-mismatch(one-segment-too-many)");
+				}
 				expect_err = RTR_BGPSEC_WRONG_SEGMENT_COUNT;
-				if (info) info->cls.push_back("segment-count-mismatch");
 			}
 			bool supported = u.alg == 1 && (u.afi == 1 || u.afi == 2);
 			struct rtr_signature_seg *ns = nullptr;
-			int rc = rtr_bgpsec_generate_signature(b, priv.data(), &ns);
+			// odd hops go through the connection manager's public entry point
+			int rc = (k & 1) ? rtr_mgr_bgpsec_generate_signature(b, priv.data(), &ns) : rtr_bgpsec_generate_signature(b, priv.data(), &ns);
 			std::string ctx = " [signing hop " + std::to_string(k) + " of " + std::to_string(N) + ", afi=" + std::to_string(u.afi) + " nlri_len=" + std::to_string(u.nlri_len) + "]";
 			if (u.alg != 1 && (u.afi == 1 || u.afi == 2)) { if (rc != RTR_BGPSEC_UNSUPPORTED_ALGORITHM_SUITE) FAIL("C12:suite-code", "suite " + std::to_string(u.alg) + " gave " + std::to_string(rc) + ctx); }
 			else if (u.alg == 1 && !(u.afi == 1 || u.afi == 2)) { if (rc != RTR_BGPSEC_UNSUPPORTED_AFI) FAIL("C12:afi-code", "AFI " + std::to_string(u.afi) + " gave " + std::to_string(rc) + ctx); }
